@@ -36,7 +36,8 @@ def make_ctx(widx, tier, opts):
     ctx.dir = os.path.join(common.scratch(), "w%d" % widx)
     os.makedirs(ctx.dir, exist_ok=True)
     F, ctx.gated = harness.features_for(PROP)
-    ctx.features = F - {"array_pass", "struct_pass", "fnvalues", "long_strings"}
+    # global_init_call: the output of a global initialiser belongs to program start, not to any shadow test (the comparison is per test)
+    ctx.features = F - {"array_pass", "struct_pass", "fnvalues", "long_strings", "global_init_call"}
     ctx.size = 3
     return ctx
 
